@@ -8,6 +8,8 @@ objects, under a cooperative scheduler that owns every switch, up to a preemptio
   exactly one thread runs at a time, so a schedule (list of choices) is replayable;
 * a choice is an index into the enabled threads in canonical order (running thread first, then
   ascending ids); choice 0 everywhere = run each thread to completion in turn;
+* in the "write+op" point set every bytecode boundary *inside* a write-ish line is a scheduling point as well
+  (``frame.f_trace_opcodes``), so a check-then-act written on one line can be torn;
 * switching away from a thread that could continue is a preemption; executions always run to
   completion; exploration covers every schedule with <= bound preemptions;
 * every execution runs in a freshly forked process (the library's pristine module state), so races on
@@ -37,6 +39,7 @@ _WRITE_OPS = {"STORE_ATTR", "STORE_SUBSCR", "STORE_GLOBAL", "DELETE_ATTR", "DELE
 _WRITE_CALLS = {"append", "extend", "pop", "update", "insert", "remove", "clear", "setdefault", "add", "discard", "sort",
                 "reverse", "popitem", "extract_paths"}
 _points_cache = None
+_write_codes = set()   # (filename, co_firstlineno) of code objects that contain a write-ish line
 
 
 def write_points():
@@ -55,6 +58,7 @@ def write_points():
                 line = ins.positions.lineno
             if ins.opname in _WRITE_OPS or (ins.opname in ("LOAD_ATTR", "LOAD_METHOD") and ins.argval in _WRITE_CALLS):
                 pts.add((code.co_filename, line))
+                _write_codes.add((code.co_filename, code.co_firstlineno))
         for c in code.co_consts:
             if hasattr(c, "co_code"):
                 scan(c)
@@ -80,7 +84,8 @@ class Execution:
 class Scheduler:
     """Runs `bodies` (callables) as threads under schedule `prefix` (then choice 0)."""
 
-    def __init__(self, bodies, prefix, point_filter=None):
+    def __init__(self, bodies, prefix, point_filter=None, opcodes=False):
+        self.opcodes = opcodes
         self.bodies = bodies
         self.prefix = list(prefix)
         self.filter = point_filter
@@ -127,19 +132,29 @@ class Scheduler:
         flt = self.filter
 
         after_write = [False]
+        opcodes = self.opcodes
 
         def local(frame, event, arg):
             if event == "line":
                 key = (frame.f_code.co_filename, frame.f_lineno)
                 # a scheduling point before every write-ish line and at the line that follows one (so that the
                 # other thread can run in the window between a write and what this thread does next)
-                if flt is None or key in flt or after_write[0]:
-                    after_write[0] = flt is not None and key in flt
+                is_write = flt is not None and key in flt
+                if flt is None or is_write or after_write[0]:
+                    after_write[0] = is_write
                     self.yield_point(tid, (tid,) + key)
+            elif event == "opcode":
+                # inside a write-ish line every bytecode boundary is a scheduling point too (check-then-act written
+                # on one line, e.g. `del d[next(iter(d))]`); opcode events are switched on per frame at its call
+                # event (switching them on from inside a running frame does not take effect reliably)
+                if (frame.f_code.co_filename, frame.f_lineno) in flt:
+                    self.yield_point(tid, (tid, frame.f_code.co_filename, frame.f_lineno, frame.f_lasti))
             return local
 
         def glob(frame, event, arg):
             if event == "call" and frame.f_code.co_filename.startswith(VALIDA_DIR):
+                if opcodes and flt is not None and (frame.f_code.co_filename, frame.f_code.co_firstlineno) in _write_codes:
+                    frame.f_trace_opcodes = True   # only frames whose code contains a write-ish line pay for opcode events
                 return local
             return None
         return glob
@@ -188,9 +203,34 @@ class Scheduler:
         return self.x
 
 
+OPCODES = False   # set by run_unit for units that explore at bytecode granularity inside write-ish lines
+
+
+def _prime_opcode_tracing():
+    """CPython 3.12 delivers no 'opcode' events to the first frame that asks for them in a process (the instrumentation is
+    installed lazily); tracing a dummy function once makes them reliable for everything that follows."""
+    def dummy(x):
+        return x
+
+    def local(frame, event, arg):
+        return local
+
+    def glob(frame, event, arg):
+        if event == "call":
+            frame.f_trace_opcodes = True
+            return local
+    sys.settrace(glob)
+    try:
+        dummy(0)
+    finally:
+        sys.settrace(None)
+
+
 def _run_schedule_here(make_bodies, prefix, point_filter):
+    if OPCODES:
+        _prime_opcode_tracing()
     bodies, finish = make_bodies()
-    x = Scheduler(bodies, prefix, point_filter).run()
+    x = Scheduler(bodies, prefix, point_filter, opcodes=OPCODES).run()
     x.world = finish()
     return x
 
@@ -267,6 +307,7 @@ HARNESSES = {
     "two-filters": ([("filter a&b", 0)], [("filter a&b", 0)]),
     "part-combinations": ([("part.filter", 0), ("part2.filter", 1)], [("part2.filter", 0), ("part.filter", 1)]),
     "same-rule-twice": ([("test r1", 0)], [("test r1", 0)]),
+    "warm-cast-race": ([("validate one", 0)], [("validate one", 1)]),   # a small cast race after a 1500-string warm-up
 }
 # two preemptions: the three smallest harnesses (0.3-0.7 k points -> 4*10^5 schedules); for the larger ones
 # (1.2-2.6 k points -> 10^6+ schedules each at ~15 ms) bound 2 is not run -- stated in the evidence, not capped silently
@@ -281,13 +322,27 @@ def _op_index(name, di):
     raise KeyError((name, di))
 
 
+def _warm_up(w):
+    """A large sequential warm-up before the race (untraced): fills any capacity-bounded structure the library may
+    keep (memo tables with eviction, pools) so that the racing calls hit its 'full' code path."""
+    from valida import Schema, Rule, Value
+    from valida.datapath import ListValue
+    big = [str(i) for i in range(1200)] + ["t%d" % i for i in range(300)]
+    Schema([Rule([ListValue()], Value.dtype.equal_to(int), cast=dict(_c08().INT)),
+            Rule([ListValue()], Value.null(), cast=dict(_c08().BOOL))]).validate(big)
+    w.s_cast.validate({"m": {"x": "5000", "flag": "TRUE"}, 0: "6000"})
+
+
 def make_harness(hname):
     c08 = _c08()
     t0, t1 = HARNESSES[hname]
     ops = [[_op_index(*o) for o in t0], [_op_index(*o) for o in t1]]
+    warm = hname.startswith("warm-")
 
     def make_bodies():
         w = c08.World()
+        if warm:
+            _warm_up(w)
         roots = w.roots()
         init = snap(roots)
 
@@ -306,14 +361,19 @@ def make_harness(hname):
     return make_bodies, expected, ops
 
 
+OPCODE_QUICK = ("two-filters", "warm-cast-race")
+
+
 def units(tier):
     u = []
     for h in HARNESSES:
         for first in (0, 1):
             if tier == "quick":
-                u += [["S", h, 1, "write", first, k, 6] for k in range(6)]
+                pts = "write+op" if h in OPCODE_QUICK else "write"
+                u += [["S", h, 1, pts, first, k, 6] for k in range(6)]
             else:
                 u += [["S", h, 1, "all", first, k, 12] for k in range(12)]
+                u += [["S", h, 1, "write+op", first, k, 12] for k in range(12)]
                 if h in BOUND2:
                     u += [["S", h, 2, "write", first, k, 24] for k in range(24)]
     u.append(["S-determinism"])
@@ -324,8 +384,10 @@ def run_unit(res, unit, tier):
     if unit[0] == "S-determinism":
         determinism(res)
         return
+    global OPCODES
     _, hname, bound, pts, first, k, nshards = unit
-    flt = write_points() if pts == "write" else None
+    flt = write_points() if pts.startswith("write") else None
+    OPCODES = pts.endswith("+op")
     try:
         make_bodies, expected, ops = make_harness(hname)
         x0 = run_schedule(make_bodies, [first], flt, pristine=True)
@@ -398,8 +460,10 @@ def determinism(res):
 
 
 def replay(res, case):
+    global OPCODES
     make_bodies, expected, ops = make_harness(case["harness"])
-    flt = write_points() if case.get("points") == "write" else None
+    flt = write_points() if str(case.get("points", "")).startswith("write") else None
+    OPCODES = str(case.get("points", "")).endswith("+op")
     x = run_schedule(make_bodies, case["schedule"], flt, pristine=True)
     got = [list(r[1]) if r and r[0] == "ok" else r for r in x.obs]
     for tid in (0, 1):
